@@ -214,3 +214,10 @@ TEXTS = {
     },
 }
 NOT_YET = {}
+
+TEXTS["C10"] = {
+    "text": "PROVISIONAL",
+    "design_ref": "DESIGN.md section 5 C09-C11 shared machinery, C10",
+    "note": "PROVISIONAL",
+    "technique": "PROVISIONAL",
+}
